@@ -169,6 +169,9 @@ func NewPublicKey[
 	Sig curves.PairingFriendlyPoint[Sig, SigFE, PK, PKFE, E, S], SigFE algebra.FieldElement[SigFE],
 	E algebra.MultiplicativeGroupElement[E], S algebra.PrimeFieldElement[S],
 ](v PK) (*PublicKey[PK, PKFE, Sig, SigFE, E, S], error) {
+	if utils.IsNil(v) {
+		return nil, signatures.ErrInvalidArgument.WithMessage("cannot create public key from nil point")
+	}
 	if v.IsOpIdentity() {
 		return nil, signatures.ErrInvalidArgument.WithMessage("cannot create public key from identity point")
 	}
@@ -208,6 +211,32 @@ type PublicKey[
 	E algebra.MultiplicativeGroupElement[E], S algebra.PrimeFieldElement[S],
 ] struct {
 	signatures.PublicKeyTrait[PK, S]
+}
+
+type publicKeyDTO[
+	PK curves.PairingFriendlyPoint[PK, PKFE, Sig, SigFE, E, S], PKFE algebra.FieldElement[PKFE],
+	Sig curves.PairingFriendlyPoint[Sig, SigFE, PK, PKFE, E, S], SigFE algebra.FieldElement[SigFE],
+	E algebra.MultiplicativeGroupElement[E], S algebra.PrimeFieldElement[S],
+] struct {
+	V PK `cbor:"V"`
+}
+
+// UnmarshalCBOR deserializes a public key from CBOR format and re-validates it through NewPublicKey.
+func (pk *PublicKey[P1, F1, P2, F2, E, S]) UnmarshalCBOR(data []byte) error {
+	dto, err := serde.UnmarshalCBOR[*publicKeyDTO[P1, F1, P2, F2, E, S]](data)
+	if err != nil {
+		return errs.Wrap(err).WithMessage("could not unmarshal public key from CBOR")
+	}
+	if dto == nil {
+		return signatures.ErrInvalidArgument.WithMessage("public key is nil")
+	}
+	pk2, err := NewPublicKey[P1, F1, P2, F2, E, S](dto.V)
+	if err != nil {
+		return errs.Wrap(err).WithMessage("could not create public key from deserialized data")
+	}
+
+	*pk = *pk2
+	return nil
 }
 
 // Group returns the elliptic curve subgroup that this public key belongs to.
